@@ -2,11 +2,14 @@ package main
 
 import (
 	"fmt"
+	"go/ast"
 	"go/constant"
 	"go/token"
 	"go/types"
 	"strconv"
 	"strings"
+
+	"golang.org/x/tools/go/ssa"
 )
 
 // Env is the evaluation environment of a specification expression.
@@ -54,7 +57,7 @@ func (x *Exec) specEnv(st *State, fr *Frame, results []Val) *Env {
 	if p := fnPkg(fr.fn); p != nil {
 		e.pkg = p.Path()
 	}
-	e.at = fr.fn.Pos()
+	e.at = bodyPos(fr.fn)
 	for _, p := range fr.fn.Params {
 		e.vars[p.Name()] = fr.vals[p]
 	}
@@ -78,6 +81,8 @@ func (x *Exec) evalBool(st *State, sx *SX, env *Env) (out string) {
 		}
 	}()
 	v := x.eval(sx, env)
+	x.wfView(env)
+	x.wfView(env.inOld())
 	return v.S
 }
 
@@ -113,6 +118,28 @@ func (x *Exec) smtSortName(env *Env, s string) (string, types.Type) {
 		}
 		return s, t
 	}
+	if strings.HasPrefix(s, "(keyof ") || strings.HasPrefix(s, "(elemof ") || strings.HasPrefix(s, "(typeof ") {
+		sx, err := parseSX(s)
+		if err != nil {
+			x.specFail("bad sort %s", s)
+		}
+		v := x.eval(sx.List[1], env)
+		if v.T == nil {
+			x.specFail("sort of untyped term in %s", s)
+		}
+		t := v.T
+		switch sx.Head() {
+		case "keyof":
+			m, ok := types.Unalias(t).Underlying().(*types.Map)
+			if !ok {
+				x.specFail("keyof non-map in %s", s)
+			}
+			t = m.Key()
+		case "elemof":
+			t = elemTypeOf(t)
+		}
+		return x.so.sortOf(t), t
+	}
 	if strings.HasPrefix(s, "(") {
 		return s, nil // raw SMT sort
 	}
@@ -122,6 +149,20 @@ func (x *Exec) smtSortName(env *Env, s string) (string, types.Type) {
 
 func (x *Exec) load(env *Env, l *Loc) string {
 	return x.pathGet(x.baseLoad(env.heaps, env.epoch, l), l.Path)
+}
+
+// wfView adds well-formedness facts for every heap version visible in the view of env.
+func (x *Exec) wfView(env *Env) {
+	if env.st == nil {
+		return
+	}
+	for name, sort := range x.heapSo {
+		if !(strings.HasPrefix(name, "H:") || strings.HasPrefix(name, "E:") || strings.HasPrefix(name, "MV:")) {
+			continue
+		}
+		sym := heapSymIn(x, env.heaps, env.epoch, name, sort)
+		x.wellFormed(env.st, name, sort, sym, env.now)
+	}
 }
 
 // field access through pointers on a typed value
@@ -335,10 +376,10 @@ func (x *Exec) eval(sx *SX, env *Env) Val {
 			}
 			return Val{S: fmt.Sprintf("(s.len %s)", v.S), T: types.Typ[types.Int]}
 		case *types.Basic:
-			return Val{S: fmt.Sprintf("(str.len %s)", v.S), T: types.Typ[types.Int]}
+			return Val{S: fmt.Sprintf("(strlen %s)", v.S), T: types.Typ[types.Int]}
 		case *types.Map:
 			h := heapSymIn(x, env.heaps, env.epoch, mlName(u), "(Array Int Int)")
-			return Val{S: fmt.Sprintf("(select %s %s)", h, v.S), T: types.Typ[types.Int]}
+			return Val{S: fmt.Sprintf("(ite (= %s 0) 0 (select %s %s))", v.S, h, v.S), T: types.Typ[types.Int]}
 		case *types.Array:
 			return Val{S: fmt.Sprint(u.Len()), T: types.Typ[types.Int]}
 		}
@@ -406,9 +447,37 @@ func (x *Exec) eval(sx *SX, env *Env) Val {
 			}
 		}
 		return Val{S: fmt.Sprintf("(= %s 0)", v.S), T: types.Typ[types.Bool]}
+	case "heap-unchanged":
+		var parts []string
+		for _, a := range args {
+			for _, hn := range x.modItemHeaps(a.String(), env) {
+				sort := x.heapSo[hn]
+				if sort == "" {
+					continue
+				}
+				parts = append(parts, fmt.Sprintf("(= %s %s)", heapSymIn(x, env.heaps, env.epoch, hn, sort), heapSymIn(x, env.oheaps, env.oepoch, hn, sort)))
+			}
+		}
+		return Val{S: "(and true " + strings.Join(parts, " ") + ")", T: types.Typ[types.Bool]}
+	case "mapdom", "mapvals":
+		m := ev(0)
+		mt, ok := types.Unalias(m.T).Underlying().(*types.Map)
+		if !ok {
+			x.specFail("%s of non-map", head)
+		}
+		ks, vs := x.so.sortOf(mt.Key()), x.so.sortOf(mt.Elem())
+		if head == "mapdom" {
+			h := heapSymIn(x, env.heaps, env.epoch, mdName(mt), fmt.Sprintf("(Array Int (Array %s Bool))", ks))
+			return Val{S: fmt.Sprintf("(select %s %s)", h, m.S)}
+		}
+		h := heapSymIn(x, env.heaps, env.epoch, mvName(mt), fmt.Sprintf("(Array Int (Array %s %s))", ks, vs))
+		return Val{S: fmt.Sprintf("(select %s %s)", h, m.S)}
 	case "fresh":
 		v := ev(0)
 		return Val{S: fmt.Sprintf("(>= (born %s) %s)", x.refOf(v), env.onow), T: types.Typ[types.Bool]}
+	case "allocated-before":
+		v := ev(0)
+		return Val{S: fmt.Sprintf("(< (born %s) %s)", x.refOf(v), env.onow), T: types.Typ[types.Bool]}
 	case "allocated":
 		v := ev(0)
 		return Val{S: fmt.Sprintf("(< (born %s) %s)", x.refOf(v), env.now), T: types.Typ[types.Bool]}
@@ -528,6 +597,8 @@ func (x *Exec) eval(sx *SX, env *Env) Val {
 		if m.Pkg == "" {
 			ne.pkg = env.pkg
 			ne.at = env.at
+		} else if m.Pkg == env.pkg {
+			ne.at = env.at
 		}
 		for i, p := range m.Params {
 			v := ev(i)
@@ -578,4 +649,19 @@ func (x *Exec) refOf(v Val) string {
 		}
 	}
 	return v.S
+}
+
+
+// bodyPos returns a position inside the function's body scope (so that type parameters and imports resolve).
+func bodyPos(fn *ssa.Function) token.Pos {
+	for fn.Parent() != nil {
+		fn = fn.Parent()
+	}
+	if o := fn.Origin(); o != nil {
+		fn = o
+	}
+	if fd, ok := fn.Syntax().(*ast.FuncDecl); ok && fd.Body != nil {
+		return fd.Body.Lbrace + 1
+	}
+	return fn.Pos()
 }
